@@ -339,3 +339,14 @@ Theorem ratio_normalize_terminates : forall n d, wf_num n -> wf_num d -> canon d
                      \/ (exists n' d', ratio_normalize fuel qf mf n d = RRat n' d').
 Proof. exact ratio_normalize_total. Qed.
 Print Assumptions ratio_normalize_terminates.
+
+(** exact integer square root: total correctness.  From any positive estimate one Newton step reaches or
+    passes the root, then the estimate strictly decreases until the exit test holds. *)
+From ChibiV Require Import C04.ProofsSqrtTerm.
+Theorem sqrt_newton_total : forall a res, wf_num a -> is_fix a = false -> 1 <= nval a ->
+  wf_num res -> seed_ok res -> 1 <= nval res ->
+  exists fuel qf mf s r, sqrt_loop fuel qf mf a res = SV s r
+    /\ nval s * nval s <= nval a < (nval s + 1) * (nval s + 1) /\ nval r = nval a - nval s * nval s
+    /\ canon s /\ canon r.
+Proof. exact sqrt_total. Qed.
+Print Assumptions sqrt_newton_total.
